@@ -7,6 +7,22 @@
 
 namespace etl {
 
+namespace detail {
+
+template <typename T>
+[[nodiscard]] constexpr auto fmax_impl(T x, T y) noexcept -> T
+{
+    if (x != x) {
+        return y; // x is NaN
+    }
+    if (y != y) {
+        return x; // y is NaN
+    }
+    return etl::detail::gcem::max(x, y);
+}
+
+} // namespace detail
+
 /// \ingroup cmath
 /// @{
 
@@ -14,20 +30,20 @@ namespace etl {
 /// missing data (between a NaN and a numeric value, the numeric value is chosen)
 ///
 /// https://en.cppreference.com/w/cpp/numeric/math/fmax
-[[nodiscard]] constexpr auto fmax(float x, float y) noexcept -> float { return etl::detail::gcem::max(x, y); }
+[[nodiscard]] constexpr auto fmax(float x, float y) noexcept -> float { return etl::detail::fmax_impl(x, y); }
 
-[[nodiscard]] constexpr auto fmaxf(float x, float y) noexcept -> float { return etl::detail::gcem::max(x, y); }
+[[nodiscard]] constexpr auto fmaxf(float x, float y) noexcept -> float { return etl::detail::fmax_impl(x, y); }
 
-[[nodiscard]] constexpr auto fmax(double x, double y) noexcept -> double { return etl::detail::gcem::max(x, y); }
+[[nodiscard]] constexpr auto fmax(double x, double y) noexcept -> double { return etl::detail::fmax_impl(x, y); }
 
 [[nodiscard]] constexpr auto fmax(long double x, long double y) noexcept -> long double
 {
-    return etl::detail::gcem::max(x, y);
+    return etl::detail::fmax_impl(x, y);
 }
 
 [[nodiscard]] constexpr auto fmaxl(long double x, long double y) noexcept -> long double
 {
-    return etl::detail::gcem::max(x, y);
+    return etl::detail::fmax_impl(x, y);
 }
 
 /// @}
